@@ -154,21 +154,31 @@ def run_interface(matrix, method, n, flip, ub, nn, mask, iters, kwargs):
         tp.eigh.append((np.array(a, dtype=float, copy=True), (np.array(r[0], copy=True), np.array(r[1], copy=True))))
         return r
 
-    def wrap(fn):
+    depth = [0]
+
+    def wrap(fn, label):
+        """records the matrix of every TOP-LEVEL call (randomized_svd calls truncated_svd internally) of a candidate
+        back end, whichever of them svd_interface dispatches to"""
         def w(m, n_eigenvecs=None, **kw):
-            r = fn(m, n_eigenvecs=n_eigenvecs, **kw)
-            tp.fun.append((np.array(m, dtype=float, copy=True), tuple(np.array(x, copy=True) for x in r)))
+            top = depth[0] == 0
+            depth[0] += 1
+            try:
+                r = fn(m, n_eigenvecs=n_eigenvecs, **kw)
+            finally:
+                depth[0] -= 1
+            if top:
+                tp.fun.append((label, np.array(m, dtype=float, copy=True), tuple(np.array(x, copy=True) for x in r)))
             return r
         return w
 
     saved = {}
     NumpyBackend.register_method("svd", rec_svd)
     NumpyBackend.register_method("eigh", rec_eigh)
-    for name in ("symeig_svd", "randomized_svd"):
+    for name in ("truncated_svd", "symeig_svd", "randomized_svd"):
         saved[name] = getattr(svdmod, name)
-        setattr(svdmod, name, wrap(saved[name]))
+        setattr(svdmod, name, wrap(saved[name], name))
     try:
-        meth = wrap(numpy_thin_svd) if method == "callable" else method
+        meth = wrap(numpy_thin_svd, "callable") if method == "callable" else method
         args = dict(method=meth, n_eigenvecs=n, flip_sign=flip, u_based_flip_sign=ub, non_negative=nn, **kwargs)
         if mask is not None:
             args.update(mask=mask, n_iter_mask_imputation=iters)
@@ -197,7 +207,7 @@ def dedupe(calls, key):
     return out
 
 
-def build_tape(method, tp, matrix, expected_calls=None):
+def build_tape(method, tp, matrix, expected_calls=None, cfg=None):
     """tape entries (Min, a, b) per logical call of the dispatched function"""
     ents = []
     if method == "truncated_svd":
@@ -211,9 +221,19 @@ def build_tape(method, tp, matrix, expected_calls=None):
             a, b = (ans, other) if full else (other, ans)
             ents.append((m, a, b))
     else:
-        for (m, ans) in tp.fun:
-            ents.append((m, ans, None))
+        # identification by value: the answers are obtained by calling the function the method name SHOULD select
+        # directly (not through svd_interface) on every matrix the interface handed to a back end
+        svdmod = importlib.import_module("tensorly.tenalg.svd")
+        expected = {"symeig_svd": svdmod.symeig_svd, "randomized_svd": svdmod.randomized_svd, "callable": numpy_thin_svd}[method]
+        for (_label, m, _ans) in tp.fun:
+            out = C.call_impl(lambda: expected(np.array(m, copy=True), n_eigenvecs=(cfg or {}).get("n"), **((cfg or {}).get("kwargs") or {})))
+            if out[0] != "ok":
+                return []
+            ents.append((m, tuple(np.asarray(x) for x in out[1]), None))
     return ents
+
+
+FNAME_LIT = {"truncated_svd": "FTruncated", "symeig_svd": "FSymeig", "randomized_svd": "FRandomized", "callable": "FUser"}
 
 
 def tape_lit(ents):
@@ -238,7 +258,8 @@ class Groups:
         M = cfg["matrix"]
         d1, d2 = M.shape
         mask = "None" if cfg["mask"] is None else f"(Some {qmat(cfg['mask'])})"
-        head = (f"{d1}%nat {d2}%nat {METH_LIT.get(cfg['method'], 'MUnknown')} {qmat(M)} {mask} {int(cfg['iters'])}%nat {tape_lit(ents)}")
+        head = (f"{d1}%nat {d2}%nat {METH_LIT.get(cfg['method'], 'MUnknown')} {FNAME_LIT.get(cfg['method'], 'FUser')} {qmat(M)} {mask} "
+                f"{int(cfg['iters'])}%nat {tape_lit(ents)}")
         exp = "Err" if out[0] != "ok" else f"(Ok {triple_lit(out[1])})"
         sid = len(self.meta)
         self.meta.append(cfg)
@@ -679,6 +700,56 @@ def ties(src):
         return (f"Goal forall d1 d2 k mn mx n_over : nat, mn = Nat.min d1 d2 -> mx = Nat.max d1 d2 -> "
                 f"dec_rand_transposed d1 d2 k mn (dec_rand_ndims k n_over mx) = {tests[0]}.\nProof. tie. Qed.\n")
 
+    def t_dispatch():
+        """the if / elif chain of svd_interface: method == "<name>" -> svd_fun = <function>; callable(method) -> method; else raise"""
+        fn = funs["svd_interface"]
+        chain = next((st for st in fn.body if isinstance(st, ast.If) and isinstance(st.test, ast.Compare)
+                      and isinstance(st.test.left, ast.Name) and st.test.left.id == "method"), None)
+        if chain is None:
+            raise Untranslatable("no `if method == ...` chain")
+        table, user, rejects = {}, False, False
+        node = chain
+        while True:
+            tgt = node.body[0] if len(node.body) == 1 and isinstance(node.body[0], ast.Assign) else None
+            if tgt is None or not (len(tgt.targets) == 1 and isinstance(tgt.targets[0], ast.Name) and tgt.targets[0].id == "svd_fun"
+                                   and isinstance(tgt.value, ast.Name)):
+                raise Untranslatable("branch body is not `svd_fun = <name>`")
+            t = node.test
+            if isinstance(t, ast.Compare) and len(t.ops) == 1 and isinstance(t.ops[0], ast.Eq) and isinstance(t.left, ast.Name) \
+                    and t.left.id == "method" and isinstance(t.comparators[0], ast.Constant) and isinstance(t.comparators[0].value, str):
+                if user:
+                    raise Untranslatable("a name test after the callable test")
+                table.setdefault(t.comparators[0].value, tgt.value.id)
+            elif is_call(t, "callable") and tgt.value.id == "method":
+                user = True
+            else:
+                raise Untranslatable("unexpected test in the dispatch chain")
+            if len(node.orelse) == 1 and isinstance(node.orelse[0], ast.If):
+                node = node.orelse[0]
+                continue
+            rejects = bool(node.orelse) and all(isinstance(x, ast.Raise) for x in node.orelse)
+            if node.orelse and not rejects:
+                raise Untranslatable("else branch is not a raise")
+            break
+        # only statements that do not touch svd_fun / method may stand between the chain and the first call
+        FN = {"truncated_svd": "FTruncated", "symeig_svd": "FSymeig", "randomized_svd": "FRandomized"}
+
+        def pick(name):
+            f_ = table.get(name)
+            if f_ is None:
+                return "None"
+            if f_ not in FN:
+                raise Untranslatable(f"method {name!r} dispatches to an unknown function {f_}")
+            return f"(Some {FN[f_]})"
+        arms = [f"MTruncated => {pick('truncated_svd')}", f"MSymeig => {pick('symeig_svd')}", f"MRandomized => {pick('randomized_svd')}",
+                f"MCallable => {'(Some FUser)' if user else 'None'}", f"MUnknown => {'None' if rejects else '(Some FUser)'}"]
+        extra = [k_ for k_ in table if k_ not in FN]
+        if extra:
+            raise Untranslatable(f"method names outside the model: {extra}")
+        return ("Definition ast_dispatch (m : method) : option fname :=\n  match m with " + " | ".join(arms) + " end.\n"
+                "Goal forall m, dispatch m = ast_dispatch m.\nProof. intros []; reflexivity. Qed.\n")
+
+    attempt("svd_interface", t_dispatch)
     attempt("svd_checks", t_svd_checks)
     attempt("truncated_svd", t_truncated)
     attempt("symeig_svd", t_symeig)
@@ -798,7 +869,7 @@ def last_matrix(cfg, tp):
     if cfg["method"] == "truncated_svd" and tp.svd:
         return tp.svd[-1][0]
     if tp.fun:
-        return tp.fun[-1][0]
+        return tp.fun[-1][1]
     return cfg["matrix"]
 
 
@@ -925,13 +996,12 @@ def run(chk):
                 continue
             ncalls = 1 + (cfg["iters"] if cfg["mask"] is not None and cfg["n"] is not None else 0)
             try:
-                ents = build_tape(cfg["method"], tp, cfg["matrix"], ncalls) if cfg["method"] in METH_LIT else []
-                if any(not finite3(a) or not np.all(np.isfinite(m)) for (m, a, _b) in ents):
-                    ents = []           # a NaN went through the back end: nothing exact to compare (the predicates report it)
+                ents = build_tape(cfg["method"], tp, cfg["matrix"], ncalls, cfg) if cfg["method"] in METH_LIT else []
+                nonfinite = any(not finite3(a) or not np.all(np.isfinite(m)) for (m, a, _b) in ents)
             except np.linalg.LinAlgError:
-                ents = []
-            if cfg["method"] in METH_LIT and not ents:
-                skipped_tape += 1
+                ents, nonfinite = [], True
+            if nonfinite:
+                skipped_tape += 1       # a NaN went through the back end: nothing exact to compare (the predicates report it)
                 continue
             if cfg["nn"] not in (None, False) and nn_ill_conditioned(cfg):
                 skipped_ill += 1
